@@ -25,6 +25,10 @@ def plan(tier, seed):
         specs.append({'lane': 'real', 'sc': 'kill_idle', 'timeout': 100,
                       'params': {'nproc': nproc, 'kill': kill, 'victim_kind': 'waiter',
                                  'sig': rng.choice([9, 11, 15]), 'T': 1.0}})
+    for (nproc, g, sh) in ((2, 2, 1), (1, 1, 1)) if tier == 'quick' else \
+            ((2, 2, 1), (1, 1, 1), (3, 1, 3), (2, 3, 2)):
+        specs.append({'lane': 'real', 'sc': 'grow_shrink', 'timeout': 100,
+                      'params': {'nproc': nproc, 'grow': g, 'shrink': sh, 'T': 1.0}})
     # the idle worker that holds the queue's read lock: TERM is handled in
     # Python (lock released); a hard kill leaves the lock taken (known finding)
     specs.append({'lane': 'real', 'sc': 'kill_idle', 'timeout': 100,
@@ -44,7 +48,8 @@ def want(job):
 
 def run_spec(spec, rec):
     p = spec['params']
-    fn = 'sc_recycle' if spec['sc'] == 'recycle' else 'sc_kill_idle'
+    fn = {'recycle': 'sc_recycle', 'kill_idle': 'sc_kill_idle',
+          'grow_shrink': 'sc_grow_shrink'}[spec['sc']]
     r = real.run_scenario('vmon.real_pool', fn, p, timeout=spec['timeout'] - 25)
     obs, ev = r['obs'], r['events']
     if r['status'] == 'scenario_error':
@@ -58,6 +63,26 @@ def run_spec(spec, rec):
     if r['status'] != 'ok':
         rec.violation('host_process_died' if r['status'] == 'died' else 'pool_hung_while_recycling',
                       attrs, rc=r['rc'], obs=obs, stderr=r['stderr'][-4000:], params=p)
+        return
+    if spec['sc'] == 'grow_shrink':
+        rec.count('real:grow_shrink_scenarios')
+        n, g = p['nproc'], p['grow']
+        if obs['live_after_grow'] != n + g:
+            rec.violation('pool_size_not_restored', dict(attrs, after='grow'),
+                          live=obs['live_after_grow'], target=n + g)
+        if len(obs['pids_after_grow']) < min(n + g, 2):
+            rec.violation('grown_workers_not_serving', attrs, pids=obs['pids_after_grow'])
+        for key in ('indices_after_grow', 'indices_after_shrink'):
+            if len(set(obs[key])) != len(obs[key]):
+                rec.violation('slot_index_not_distinct', attrs, indices=obs[key], when=key)
+        if obs['shrink'] == 'ok' and (obs['live_after_shrink'] != obs['target_after_shrink'] or
+                                      obs['pool_len_after_shrink'] != obs['target_after_shrink']):
+            rec.violation('pool_size_not_restored', dict(attrs, after='shrink'),
+                          live=obs['live_after_shrink'], pool_len=obs['pool_len_after_shrink'],
+                          target=obs['target_after_shrink'])
+        if any(o[0] != 'ok' for o in obs['after']):
+            rec.violation('job_failed_after_shrink', attrs, after=obs['after'])
+        rec.sig(['grow_shrink', n, g, p['shrink'], obs['shrink'] == 'ok'])
         return
     if spec['sc'] == 'kill_idle':
         rec.count('real:kill_idle_scenarios')
